@@ -11,18 +11,27 @@ FILES = ['tests/test_mesh.py', 'tests/test_basis.py', 'tests/test_assembly.py', 
          'tests/test_utils.py', 'tests/test_mapping.py', 'tests/test_elements.py', 'tests/test_manufactured.py']
 
 
-def record(ctx, files=FILES, max_cells=64, timeout=1500):
+def record(ctx, files=FILES, max_cells=64, timeout=1500, plugins=()):
+    """plugins: further pytest plugin modules (e.g. 'harness.suite_c07') that record their own event streams; each writes
+    `<SUITE_OUT>.<stream>.<pid>.json` = {stream name: [events]} at session end (see harness/suite_plugin.py for the pattern:
+    wrappers installed in pytest_configure, guarded by SKFEM_VERIF=1 and SUITE_OUT, recording must never disturb the test).
+    Their events are returned under their stream names."""
     repo = os.environ.get('SKFEM_REPO', '/repo')
     out = os.path.join(ctx.scratch, 'suite')
+    for f in glob.glob(out + '.*.json'):
+        os.remove(f)
     env = dict(os.environ, SUITE_OUT=out, SUITE_MAX_CELLS=str(max_cells), SKFEM_VERIF='1')
-    cmd = [sys.executable, '-m', 'pytest', '-q', '-p', 'no:cacheprovider', '-p', 'harness.suite_plugin', '-n', '12',
-           '--timeout=900', '-x', '-W', 'ignore'] + files
+    cmd = [sys.executable, '-m', 'pytest', '-q', '-p', 'no:cacheprovider', '-p', 'harness.suite_plugin']
+    for pl in plugins:
+        cmd += ['-p', pl]
+    cmd += ['-n', '12', '--timeout=900', '-x', '-W', 'ignore'] + files
     p = subprocess.run(cmd, cwd=repo, env=env, capture_output=True, text=True, timeout=timeout)
     events = {'refine': [], 'conn': [], 'dofs': [], 'bc': []}
     seen = set()
     for f in sorted(glob.glob(out + '.*.json')):
         d = json.load(open(f))
-        for k in events:
+        for k in d:
+            events.setdefault(k, [])
             for ev in d.get(k, []):
                 key = json.dumps(ev, sort_keys=True)
                 if key not in seen:
